@@ -30,7 +30,7 @@ ASSUMPTIONS = ['node equality / hashing of the IR dataclasses is the key semanti
                'fields pragma / pragma_post / comment / CommentBlock.comments are attachments outside the tree',
                'the source field is excluded from content comparison of changed nodes (documented invalidation) but '
                'nodes whose subtree contains no mapped node must come back equal including source']
-BUDGET_S = {'quick': 300, 'thorough': 3000}
+BUDGET_S = {'quick': 600, 'thorough': 3000}
 CASE_TIMEOUT_S = 120
 
 PAIRS_PER_CASE = 10
@@ -1054,6 +1054,8 @@ def _flat_nodes(value, out):
     for v in value:
         if irlab.class_of(v):
             out.append(dejunk(v))
+        elif isinstance(v, tuple) and len(v) == 2 and isinstance(v[0], str) and v[0].startswith('<'):
+            out.append(v)     # opaque object (program unit in an interface body)
         elif isinstance(v, tuple):
             _flat_nodes(v, out)
     return out
